@@ -285,7 +285,7 @@ def abs7(ctx, pid):
                         and _is_deleted_marker(ctx, n.comparators[0], f):
                     is_del = ev.a if isinstance(n.ops[0], ast.Is) else not ev.a
                     live = not is_del
-            rv = p.exit[1].value
+            rv = util.path_deref(p, p.exit[1].value)
             src = _answer_source(ctx, f, rv, key)
             if incache is True and live is True:
                 row = "in-live"
